@@ -2,8 +2,8 @@
    Only restatements: every proof is `exact <lemma of proofs/CodecsProofs.v>`.
    in_domain p      : p is a yearly / half-yearly / quarterly / monthly period of a year 1..9999, or a daily period
                       of the CPython date range;   sdmx_domain p : in_domain p, or p is an integer period (any integer).
-   The SDMX patterns (gen_sdmx_formats), every format string (gen_to_sdmx_*, gen_to_iso, gen_repr_*), every
-   from_sdmx_string body (gen_from_sdmx_*), month_to_segment and the day tables are regenerated from dates.py on every
+   The SDMX patterns (gen_sdmx_formats), every format string (gen_to_sdmx_F, gen_to_iso, gen_repr_F), every
+   from_sdmx_string body (gen_from_sdmx_F), month_to_segment and the day tables are regenerated from dates.py on every
    run; strings are lists of characters with the str/int/format semantics of lib/PyStr.v; fullmatch is lib/RegexSub.v. *)
 From Coq Require Import ZArith Bool Ascii String List.
 From Verif Require Import lib.Calendar lib.RegexSub lib.PyStr lib.DatesBase gen.DatesGen model.Dates model.Codecs
